@@ -68,8 +68,10 @@ func c02Alphabet() (lines []c02Line, hA, hB string) {
 		net(false, p, true, "client=~127.0.0.1|~::1"),
 		net(false, p, true, "client=10.0.0.0/8|~10.0.0.1"), // a client inside both the permitted and the restricted set
 		net(false, p, true, "client=laptop|~laptop"),
-		net(false, "||cafe.de^", true, "denyallow=x.test"), // a host name spelled with hexadecimal digits only is not an address
-		net(false, p, false, "third-party", "important"),   // browser-only modifier next to a DNS-level one
+		net(false, "||cafe.de^", true, "denyallow=x.test"),
+		net(false, "http://example.org^", true),                                         // the scheme spelled out: filed under a window of "http://"
+		{text: "0.0.0.0 example.org sub.example.org # src: https://x.test/l?a=b|c^*$@"}, // a host name spelled with hexadecimal digits only is not an address
+		net(false, p, false, "third-party", "important"),                                // browser-only modifier next to a DNS-level one
 		net(true, p, false, "document", "important"),
 		net(false, p, false, "popup", "important"),
 	}
@@ -223,8 +225,9 @@ func (m *c02Model) run(hist []int) statespace.Outcome {
 					continue
 				}
 				// names and address family as written in the line (read without the library)
-				// (the alphabet's hosts lines are "address name..." or a bare name, no comments)
-				fields := strings.Fields(pl.l.text)
+				// (the alphabet's hosts lines are "address name..." or a bare name, the comment starts at " #")
+				body, _, _ := strings.Cut(pl.l.text, " #")
+				fields := strings.Fields(body)
 				addr, names := "0.0.0.0", fields
 				if len(fields) > 1 {
 					addr, names = fields[0], fields[1:]
